@@ -206,7 +206,7 @@ def main():
         tot, levels, samples, st, len(items),
         "program = (topology, SX|MX, more_out, declared-parameter mode all|subset(reversed order)|none) compiled at levels 0,1,2; queries: level-0 result == METANET "
         "successor of the same-position state argument (per component); level-1/2 entry == level-0 entry (per entry); plus structural facts read from the signature",
-        {"bounds": {"family": "K (18 curated) x " + ("12" if args.thorough else "3") + " configurations (+ positivity-option variants) + one 12-segment link topology" + (" + E(3,4)" if args.thorough else ""),
+        {"bounds": {"family": "K (20 curated) x " + ("12" if args.thorough else "3") + " configurations (+ positivity-option variants) + one 12-segment link topology" + (" + E(3,4)" if args.thorough else ""),
                     "compactness_levels": "-1, 0, 1, 2, 3 (documented classes: <= 0, == 1, > 1)"},
          "structural_facts_checked": extra.get("structural_facts", 0),
          "functions_encoded": ["Engine.to_function, _filter_vars, _gather_inputs, _gather_outputs, _add_parameters_to_inputs, _add_flows_to_outputs (executed; IR translated)",
